@@ -87,8 +87,12 @@ def bin (a : UAxis) (t : Int) : Int := Int.fdiv (t - a.t0) a.dt
 /-- `index_at` with the range check against `[t0, hiEnd)` -/
 def indexAtWith (a : UAxis) (hiEnd : Int) (ts : List Int) : Except Err (List Int) :=
   if ts.isEmpty then .error .valueError      -- min() of an empty array
-  else if C01.listMin ts < a.t0 ∨ C01.listMax ts ≥ hiEnd then .error .valueError
-  else .ok (ts.map a.bin)
+  else if a.dt > 0 then
+    (if C01.listMin ts < a.t0 ∨ C01.listMax ts ≥ hiEnd then .error .valueError else .ok (ts.map a.bin))
+  else
+    -- a reversed axis (negative interval and duration) covers (t0 + duration, t0]: sample i owns
+    -- the instants (t_i + dt, t_i]; the floor division finds the bin
+    (if C01.listMax ts > a.t0 ∨ C01.listMin ts ≤ hiEnd then .error .valueError else .ok (ts.map a.bin))
 
 /-- intended: instants inside the last bin are accepted -/
 def indexAt (a : UAxis) (ts : List Int) : Except Err (List Int) := a.indexAtWith a.stop ts
@@ -110,7 +114,16 @@ def edgeIn (a : UAxis) (s : Int) : Nat :=
 def edge (a : UAxis) (s : Int) : Nat :=
   if s < a.t0 then 0 else if s ≥ a.stop then a.n else a.edgeIn s
 
-def sliceDuring (a : UAxis) (start stop : Int) : Nat × Nat := (a.edge start, a.edge stop)
+/-- `min(max(x, 0), len(self))` -/
+def clipN (n : Nat) (x : Int) : Nat := if x < 0 then 0 else if x > n then n else x.toNat
+
+/-- reversed axis: `(s - t0) // dt + 1`, clipped — the number of samples at or after `s` -/
+def edgeRev (a : UAxis) (s : Int) : Nat := clipN a.n (Int.fdiv (s - a.t0) a.dt + 1)
+
+/-- forward axis: from the edge of `start` to the edge of `stop`; reversed axis (the samples lying in
+`[start, stop)` run from the first one before `stop` to the first one before `start`) -/
+def sliceDuring (a : UAxis) (start stop : Int) : Nat × Nat :=
+  if a.dt > 0 then (a.edge start, a.edge stop) else (a.edgeRev stop, a.edgeRev start)
 
 /-- today's code: both edges go through `index_at`, which refuses instants outside -/
 def sliceDuringCurrent (a : UAxis) (start stop : Int) : Except Err (Nat × Nat) :=
@@ -206,6 +219,13 @@ def Epochs.mk' (u : Option TimeUnit) (t0 stop offset start duration : Arg) : Exc
     | none, none => throw .valueError
   if sSc != eSc ∨ sPs.length ≠ ePs.length then throw .valueError
   pure { starts := sPs, stops := ePs, scalar := sSc, offset := tOff.ps.headD 0, unit := sUnit }
+
+/-- `Epochs.__getitem__` with a list of (already normalised) positions: the selected rows, in the
+order and multiplicity of the key; `duration` is recomputed from them -/
+def Epochs.getItem (e : Epochs) (pos : List Nat) : Epochs :=
+  { e with starts := sel e.starts pos, stops := sel e.stops pos, scalar := false }
+
+def Epochs.durations (e : Epochs) : List Int := List.zipWith (fun a b => b - a) e.starts e.stops
 
 /-! ### time series (data rows × time) and events -/
 
@@ -396,7 +416,7 @@ def seriesDuring (s : Series) (e : Except Err Epochs) : String :=
       let k := ((r.blocks.headD []).headD []).length
       s!"ok TS:{r.unit.name}:{r.t0}:" ++ showBlocks (if e.scalar then "s" else toString r.blocks.length) (toString k) r.blocks
 
-def handle (args : List String) : String :=
+def handleOne (args : List String) : String :=
   match args with
   | ["index_at", "uaxis", a, q] => match parseU? a with
     | some a => match parseQuery? a.unit q with
@@ -465,6 +485,14 @@ def handle (args : List String) : String :=
   | "during" :: "series" :: a :: d :: ep => match parseU? a, parseD? d, parseEpochs? ep with
     | some a, some d, some e => seriesDuring { axis := a, data := d } e
     | _, _, _ => "bad-op"
+  | ["epochs_getitem", u, t0, stop, offset, start, duration, pos] =>
+    match parseEpochs? [u, t0, stop, offset, start, duration], parseNatList? pos with
+    | some (.ok e), some pos =>
+      if e.scalar then "bad-op" else
+      let r := e.getItem pos
+      s!"ok E:{r.unit.name}:0:{showIntList r.starts}:{showIntList r.stops}:{r.offset}:{showIntList r.durations}"
+    | some (.error er), some _ => showErr er
+    | _, _ => "bad-op"
   | "epochs" :: ep => match parseEpochs? ep with
     | some (.ok e) => s!"ok E:{e.unit.name}:{if e.scalar then "1" else "0"}:{showIntList e.starts}:{showIntList e.stops}:{e.offset}"
     | some (.error er) => showErr er
@@ -526,5 +554,18 @@ def handle (args : List String) : String :=
     | some _, some _, some (.error er) => showErr er
     | _, _, _ => "bad-op"
   | _ => "bad-op"
+
+/-- split a token list at the `;` tokens -/
+def splitSteps (toks : List String) : List (List String) :=
+  toks.foldr (fun t acc => if t = ";" then [] :: acc else match acc with
+    | [] => [[t]]
+    | x :: rest => (t :: x) :: rest) [[]]
+
+/-- one line = one operation, or `seq step ; step ; …`: the model is pure, so the answer to a
+sequence is the answer to each step with the arguments as written -/
+def handle (args : List String) : String :=
+  match args with
+  | "seq" :: rest => " ; ".intercalate ((splitSteps rest).map handleOne)
+  | _ => handleOne args
 
 end Nitime.C03
